@@ -1,5 +1,6 @@
 (* C18: timestamps denote the right instant *)
 From LD Require Import Base F32 Data Scan Semver Time Model Ops.
+From Coq Require Import ZifyBool.
 Open Scope Z_scope.
 Ltac Zify.zify_post_hook ::= Z.div_mod_to_equations.
 
@@ -37,48 +38,83 @@ Proof. intros H. unfold date_op. rewrite H. destruct (clause_time c i); reflexiv
 Lemma invalid_clause_value_never_matches c cv i f : clause_time c i = None -> date_op c cv i f = false.
 Proof. intros H. unfold date_op. rewrite H. reflexivity. Qed.
 
-(* ---- the day count: checked against the calendar for every month of the years 0000-9999 ---- *)
+(* ---- the day count is the proleptic Gregorian calendar: every month start is the previous month start plus the length
+   of that month, for EVERY year from 0 on. One 400-year cycle (4 800 month boundaries) is evaluated by the kernel; the
+   formula is 400-year periodic (146 097 days), which extends the table to all years. ---- *)
 Definition leap (y : Z) : bool := ((y mod 4 =? 0) && negb (y mod 100 =? 0)) || (y mod 400 =? 0).
 Definition days_in_month (y m : Z) : Z :=
   if (m =? 2) then (if leap y then 29 else 28)
   else if (m =? 4) || (m =? 6) || (m =? 9) || (m =? 11) then 30 else 31.
 Definition next_month (y m : Z) : Z * Z := if m =? 12 then (y + 1, 1) else (y, m + 1).
-
 Definition month_ok (y m : Z) : bool :=
   let '(y', m') := next_month y m in
   days_from_civil y' m' 1 - days_from_civil y m 1 =? days_in_month y m.
 
-Definition years : list nat := seq 0 (Z.to_nat 10000).
+(* the Gregorian calendar repeats every 400 years = 146097 days *)
+Lemma era_period z : -1 <= z -> (if 0 <=? z + 400 then z + 400 else z + 400 - 399) / 400 = (if 0 <=? z then z else z - 399) / 400 + 1.
+Proof.
+  intros Hz. replace (0 <=? z + 400) with true by lia.
+  destruct (0 <=? z) eqn:E.
+  - replace (z + 400) with (z + 1 * 400) by lia. rewrite Z.div_add by lia. reflexivity.
+  - assert (z = -1) by lia. subst z. reflexivity.
+Qed.
+Lemma dfc_period y m d : 0 <= y -> days_from_civil (y + 400) m d = days_from_civil y m d + 146097.
+Proof.
+  intros Hy. unfold days_from_civil.
+  assert (E : (if m <=? 2 then y + 400 - 1 else y + 400) = (if m <=? 2 then y - 1 else y) + 400) by (destruct (m <=? 2); lia).
+  rewrite E. set (z := if m <=? 2 then y - 1 else y). assert (Hz : -1 <= z) by (unfold z; destruct (m <=? 2); lia).
+  cbv zeta. rewrite (era_period z Hz). set (era := (if 0 <=? z then z else z - 399) / 400).
+  replace (z + 400 - (era + 1) * 400) with (z - era * 400) by lia. lia.
+Qed.
+Lemma leap_period y : leap (y + 400) = leap y.
+Proof.
+  unfold leap. replace ((y + 400) mod 4) with (y mod 4) by lia. replace ((y + 400) mod 100) with (y mod 100) by lia.
+  replace ((y + 400) mod 400) with (y mod 400) by lia. reflexivity.
+Qed.
+Lemma month_ok_period y m : 0 <= y -> month_ok (y + 400) m = month_ok y m.
+Proof.
+  intros Hy. unfold month_ok, next_month, days_in_month. rewrite leap_period. destruct (m =? 12).
+  - replace (y + 400 + 1) with (y + 1 + 400) by lia. rewrite !dfc_period by lia. f_equal. lia.
+  - rewrite !dfc_period by lia. f_equal. lia.
+Qed.
+
+Definition years400 : list nat := seq 0 400.
 Definition months : list nat := seq 1 12.
 Definition check2 {A B} (f : A -> B -> bool) (ys : list A) (ms : list B) : bool :=
   forallb (fun y => forallb (fun m => f y m) ms) ys.
 Definition month_ok_nat (y m : nat) : bool := month_ok (Z.of_nat y) (Z.of_nat m).
-
-(* 120 000 month boundaries, evaluated by the kernel's virtual machine *)
-Lemma all_months_ok_true : check2 month_ok_nat years months = true.
+Lemma one_cycle_ok : check2 month_ok_nat years400 months = true.
 Proof. vm_compute. reflexivity. Qed.
-
 Lemma check2_spec {A B} (f : A -> B -> bool) ys ms :
   check2 f ys ms = true -> forall y m, In y ys -> In m ms -> f y m = true.
 Proof.
   unfold check2. intros H y m Hy Hm. rewrite forallb_forall in H. specialize (H y Hy). rewrite forallb_forall in H. exact (H m Hm).
 Qed.
-
-Lemma months_table y m : In y years -> In m months -> month_ok_nat y m = true.
-Proof. exact (check2_spec month_ok_nat years months all_months_ok_true y m). Qed.
-
-(* every month start is the previous month start plus the length of that month, anchored at the epoch: the formula
-   IS the proleptic Gregorian day count on years 0000-9999 *)
+Lemma month_ok_cycle r m : 0 <= r < 400 -> 1 <= m <= 12 -> month_ok r m = true.
+Proof.
+  intros Hr Hm.
+  assert (Hin : In (Z.to_nat r) years400) by (unfold years400; apply in_seq; lia).
+  assert (Hin2 : In (Z.to_nat m) months) by (unfold months; apply in_seq; lia).
+  pose proof (check2_spec month_ok_nat years400 months one_cycle_ok _ _ Hin Hin2) as H.
+  unfold month_ok_nat in H. rewrite !Z2Nat.id in H by lia. exact H.
+Qed.
+Lemma month_ok_all : forall q : nat, forall r m, 0 <= r < 400 -> 1 <= m <= 12 -> month_ok (r + 400 * Z.of_nat q) m = true.
+Proof.
+  induction q as [|q IH]; intros r m Hr Hm.
+  - replace (r + 400 * Z.of_nat 0) with r by lia. apply month_ok_cycle; assumption.
+  - replace (r + 400 * Z.of_nat (S q)) with (r + 400 * Z.of_nat q + 400) by lia. rewrite month_ok_period by lia. apply IH; assumption.
+Qed.
+(* every year from 0 on, not only 0000-9999 *)
 Theorem day_count_matches_calendar y m :
-  0 <= y <= 9999 -> 1 <= m <= 12 ->
+  0 <= y -> 1 <= m <= 12 ->
   let '(y', m') := next_month y m in days_from_civil y' m' 1 = days_from_civil y m 1 + days_in_month y m.
 Proof.
   intros Hy Hm.
-  assert (Hin : In (Z.to_nat y) years) by (unfold years; apply in_seq; lia).
-  assert (Hin2 : In (Z.to_nat m) months) by (unfold months; apply in_seq; lia).
-  pose proof (months_table _ _ Hin Hin2) as H. unfold month_ok_nat in H. rewrite !Z2Nat.id in H by lia. unfold month_ok in H.
-  destruct (next_month y m) as [y' m']. apply Z.eqb_eq in H. lia.
+  pose proof (month_ok_all (Z.to_nat (y / 400)) (y mod 400) m) as H.
+  rewrite Z2Nat.id in H by lia. replace (y mod 400 + 400 * (y / 400)) with y in H by lia.
+  specialize (H ltac:(lia) Hm). unfold month_ok in H. destruct (next_month y m) as [y' m']. apply Z.eqb_eq in H. lia.
 Qed.
+
 Lemma epoch_anchor : days_from_civil 1970 1 1 = 0.
 Proof. reflexivity. Qed.
 Lemma day_within_month y m d : days_from_civil y m d = days_from_civil y m 1 + (d - 1).
